@@ -503,6 +503,10 @@ class State:
                     if nbytes == 1:
                         _PROV[e.get_id()] = (w, k0, e)
                     return e
+            if nbytes == 8 and k.startswith("&") and self.base_arr is None and all(reg.get(off + i) is None for i in range(8)):
+                a = self.m.data_reloc(k[1:], off)
+                if a is not None:
+                    return a
             bs = [self._rbyte(k, reg, off + i) for i in range(nbytes)]
             return simp(z3.Concat(*reversed(bs))) if nbytes > 1 else bs[0]
         # recent-store log: exact hit on the same address/size with only provably disjoint stores since
@@ -754,6 +758,7 @@ class Machine:
         self.solver_checks = 0
         self._sem_cache = {}
         self._data_img = {}
+        self._data_reloc = {}
         self.volatile = set()             # region keys ("&sym") of shared cells: reads are fresh, writes are events
         self.cut_loops = False            # True: a path that exceeds the unrolling bound is cut (marked), not an error
 
@@ -800,12 +805,19 @@ class Machine:
                 elif it[0] == "quadv":
                     img.extend([bv((it[1] >> (8 * i)) & 0xff, 8) for i in range(8)])
                 elif it[0] == "quad":
-                    a = self.symaddr(it[1]) + bv(it[2])
+                    a = simp(self.symaddr(it[1]) + bv(it[2]))
+                    self._data_reloc.setdefault(sym, {})[len(img)] = a      # an address constant is loaded as a whole
                     img.extend([simp(z3.Extract(8 * i + 7, 8 * i, a)) for i in range(8)])
             self._data_img[sym] = img
         if 0 <= off < len(img):
             return img[off]
         return None
+
+    def data_reloc(self, sym, off):
+        """the address constant (`.quad label+addend`) stored at byte offset `off` of data object `sym`, or None"""
+        if self.data_byte(sym, off) is None:
+            return None
+        return self._data_reloc.get(sym, {}).get(off)
 
     def static_frame_size(self, s):
         """N of the prologue's `sub $N, %rsp` of the function being executed"""
